@@ -18,6 +18,8 @@ def bo_term(c, f):
 
 
 def contract_better_origin(ex, p, args, kwargs, node):
+    if kwargs or len(args) != 2:
+        raise Unsupported("better_origin call shape")
     return [("ok", p, SV(bo_term(args[0].t, args[1].t)))]
 
 
@@ -358,9 +360,40 @@ def inner_qf(ctx):
     return And(base_qf(ctx), Val.is_intv(lsp), Val.i(lsp) >= 0, Val.i(lsp) <= 100)     # C10.guard
 
 
+def unwrap_step(ctx):
+    """C10 unwrap step: one iteration pops the head (origin, current, depth) of the unwrap queue and EITHER appends
+       (current-or-its-Frame, depth) to the elaborate queue, leaving the rest of the unwrap queue as it is, OR pushes
+       non-None children at depth+1 in front of the rest (exactly one, the result itself, for a non-sequence result)"""
+    g = ctx.p.ghost.get("head:while#2")
+    if g is None:
+        return None
+    Hh, envh = g
+    E, U = E_(ctx), U_(ctx)
+    H = ctx.H
+    p = ctx.p
+    head = p.read(U, Hh.lo_(U), Hh)
+    cur, d = Hh.at(head, 1), Val.i(Hh.at(head, 2))
+    dE = H.length(E) - Hh.length(E)
+    lastE = p.read(E, H.hi_(E) - 1, H)
+    x = H.at(lastE, 0)
+    j = fresh_int("ju")
+    ej = p.read(U, j, H)
+    un = ctx.env.get("unwrapped")
+    single = Not(is_kind(un.t, ["tuple", "list"])) if un is not None else BoolVal(False)
+    keepE = And(H.lo_(E) == Hh.lo_(E), Implies(And(j >= Hh.lo_(E), j < Hh.hi_(E)), p.read(E, j, H) == p.read(E, j, Hh)))
+    rest_same = And(H.hi_(U) == Hh.hi_(U), Implies(And(j >= Hh.lo_(U) + 1, j < Hh.hi_(U)), p.read(U, j, H) == p.read(U, j, Hh)))
+    to_E = And(dE == 1, Val.i(H.at(lastE, 1)) == d, H.lo_(U) == Hh.lo_(U) + 1,
+               Or(x == cur, And(is_kind(x, "Frame"), H.getf(x, "pyframe") == cur, is_kind(cur, "frame"))))
+    push = And(dE == 0, H.lo_(U) <= Hh.lo_(U) + 1,
+               Implies(And(j >= H.lo_(U), j < Hh.lo_(U) + 1), And(Val.i(H.at(ej, 2)) == d + 1, H.at(ej, 1) != NONE)),
+               Implies(And(single, un.t != NONE if un is not None else BoolVal(False)),
+                       And(H.lo_(U) == Hh.lo_(U), H.at(p.read(U, H.lo_(U), H), 1) == un.t)))
+    return And(keepE, rest_same, Or(to_E, push))
+
+
 INNER = Inv("C10.I_unwrap", qf=inner_qf, foralls=[("to_elaborate", fa_E), ("to_unwrap", fa_U), ("save_errors", fa_S)],
             conts=["to_elaborate", "to_unwrap", "save_errors"], var_types={"loops_since_progress": "int"},
-            ghost_havoc=reset_raised, steps=[("C05.ledger.unwrap_iteration", ledger_step)])
+            ghost_havoc=reset_raised, steps=[("C05.ledger.unwrap_iteration", ledger_step), ("C10.step.unwrap", unwrap_step)])
 
 
 def drain_qf(ctx):
@@ -519,7 +552,8 @@ UNIT = Unit("C05.extract_iter", EI, ei_setup,
             ctors=dict(CTORS, Frame=ctor_frame_checked),
             known_classes=KNOWN, invariants=INVARIANTS, on_yield=on_yield, before_stmt=before_stmt,
             star_arity={"to_elaborate.pop()": 2},
-            options=dict(iter_any_seq=True, par_k=16, par_after=("while#2",)),
+            options=dict(iter_any_seq=True, par_k=16, par_after=("while#2",),
+                         expect_loops=["while#1", "while#2", "while#3", "while#4", "while#5", "for#1", "for#2", "for#3"]),
             tuple_types={},
             assumptions=["hooks raise only Exception instances (BaseException-only exceptions pass through by design)",
                          "hook results that are Sequences are builtin tuples or lists",
